@@ -10,9 +10,9 @@ THEOREMS = ["Mesa.Cells." + t for t in (
     "C06_remove_leaves_cell", "C06_direction_map_generated", "C06_invariant_all_histories",
     "C06_histories_with_connection_edits", "C06_collection_views", "C06_select_spec", "C06_select_random_spec",
     "C06_hex_direction_names", "C06_voronoi_default_capacity",
-    "C06_assignment_exact", "C06_unplace_and_fixed_exact", "C06_select_random_empty_exact", "C06_clear_cell",
+    "C06_assignment_exact", "C06_unplace_and_fixed_exact", "C06_select_random_empty_exact", "C06_clear_cell", "C06_cell_empty_attribute",
     "C18_cells_setCell_reject_unchanged", "C18_cells_moveTo_reject_unchanged", "C18_cells_moveRelative_reject_unchanged",
-    "C18_cells_gridMove_reject_unchanged", "C18_cells_rejected_call_is_noop")]
+    "C18_cells_gridMove_reject_unchanged", "C18_cells_rejected_call_is_noop", "C18_cells_rejected_call_is_noop_with_edits")]
 COUNTS = {"quick": 1500, "thorough": 100000}
 TRUSTED = [
     "Python object identity of cells/agents is modelled by names (cell key in space._cells, agent creation index)",
